@@ -519,6 +519,7 @@ type FuncContract struct {
 	Bounded   []Clause // bounding assumptions for "bounded-" ensures
 	BoundedOnly bool
 	BoundN    int // loop unroll bound of the bounded run (default 4)
+	DynTypes  map[string]string // result -> concrete type of an interface result
 }
 
 type LetSpec struct {
@@ -575,7 +576,7 @@ var clauseKeywords = map[string]bool{
 	"requires": true, "ensures": true, "assigns": true, "loop": true, "inline": true,
 	"invariant": true, "guarded_by": true, "opaque": true, "trusted": true, "may_panic": true,
 	"wire": true, "noverify": true, "sort": true, "note": true, "let": true, "import": true,
-	"pure": true, "callassert": true, "havoc": true, "witness": true, "ghost": true, "extern": true, "bounded": true, "boundedonly": true,
+	"pure": true, "callassert": true, "havoc": true, "witness": true, "ghost": true, "extern": true, "bounded": true, "boundedonly": true, "dyntype": true,
 }
 
 // extractContractLines pulls the "//@" lines out of a Go source or .spec file
@@ -853,6 +854,20 @@ func (db *ContractDB) parseFile(pkgPath, file, src string) error {
 			if curF != nil {
 				curF.Pure = true
 			}
+		case "dyntype":
+			// dyntype <result name|index> <type>: the concrete type behind an
+			// interface-typed result (so that callers can mention its fields)
+			if curF == nil {
+				return fail(fmt.Errorf("dyntype outside func"))
+			}
+			parts := strings.Fields(rest)
+			if len(parts) != 2 {
+				return fail(fmt.Errorf("dyntype <result> <type>"))
+			}
+			if curF.DynTypes == nil {
+				curF.DynTypes = map[string]string{}
+			}
+			curF.DynTypes[parts[0]] = parts[1]
 		case "boundedonly":
 			// the function is checked only in the bounded run (no loop
 			// invariants; every ensures clause is a bounded stand-in)
